@@ -41,6 +41,20 @@ func c19Check(o *Oracle, c consCase) (ok bool, kind, detail, resp string) {
 	return true, "", "", resp
 }
 
+// an inconsistency between the four results comes from one operation being wrong; when that
+// operation's mismatch is attributed to a known site (see attrib.go) the C19 failure inherits it
+func c19Sig(o *Oracle, c consCase) string {
+	for _, op := range [][3]interface{}{{1, c.Subject, c.Clip}, {2, c.Subject, c.Clip}, {3, c.Subject, c.Clip}, {4, c.Subject, c.Clip}, {3, c.Clip, c.Subject}} {
+		bc := boolCase{CT: op[0].(int), FR: c.FR, Subject: op[1].(clip.Paths64), Clip: op[2].(clip.Paths64), Via: "BooleanOp"}
+		if ok, _, resp := c01Check(o, bc); !ok {
+			if s := siteOf(func() { runBool(bc) }, resp, "splitDiscard"); s != "" {
+				return s
+			}
+		}
+	}
+	return sigOf(c)
+}
+
 func init() {
 	stages["c19-search"] = func(ctx *Ctx, cnt func(q, t int) int, replay string) Result {
 		col := NewCollector("C19", "search", "C01's generators; the five solutions U, I, D(S,C), X, D(C,S) and the inputs are handed to the Lean oracle as seven labelled path sets; a face is bad when one of the pointwise identities X=U∧¬I, D=S∧¬I, {D,I,D'} disjoint with union U, [U]+[I]=[S]+[C] fails outside the 2-band of the input edges; UnionPaths64(S) compared with UnionWithClipPaths64(S, ∅); non-trivial = Intersection and Difference both non-empty")
@@ -68,7 +82,7 @@ func init() {
 				})
 				c.Subject, c.Clip = sh[0], sh[1]
 				_, _, detail, _ = c19Check(o, c)
-				col.Violate(Violation{Property: "C19", Kind: kind, Signature: sigOf(c), Detail: detail, Case: c, Stream: "c19", Index: i, Seed: ctx.Seed})
+				col.Violate(Violation{Property: "C19", Kind: kind, Signature: c19Sig(o, c), Detail: detail, Case: c, Stream: "c19", Index: i, Seed: ctx.Seed})
 			}
 		})
 		return col.Finish()
@@ -79,7 +93,7 @@ func init() {
 			fatal("replay case: %v", err)
 		}
 		if ok, kind, detail, _ := c19Check(o, c); !ok {
-			return &Violation{Property: "C19", Kind: kind, Signature: sigOf(c), Detail: detail, Case: c}
+			return &Violation{Property: "C19", Kind: kind, Signature: c19Sig(o, c), Detail: detail, Case: c}
 		}
 		return nil
 	}
